@@ -33,7 +33,7 @@ TRUSTED = ["lean/Tahoe/Config/Parse.lean is a hand transcription of the four fun
            "harness/props/c48.py sym_of: the abstraction of a Python character to the model's alphabet",
            "harness/extract_parts/config.py: unit tables and pattern strings recovered from the functions' ASTs",
            "lean/Tahoe/Config/Glue.lean is a hand transcription of _Client.get_anonymous_storage_server + LeaseCheckingCrawler.__init__; "
-           "the harness abstracts configparser booleans / the mode string to classes (bool_class, mode_class) and drives the real "
+           "booleans and the mode are classified by the model itself from the value text (harness lit_sym keeps ASCII + whitespace); the harness drives the real "
            "read_config + get_anonymous_storage_server on a _Client built without Node.__init__ (no tubs, no introducer)"]
 ASSUMPTIONS = ["glue: each value is written on one physical line of tahoe.cfg without '%' (no continuation lines, no interpolation)",
                "arguments are str (tahoe.cfg values); parse_abbreviated_size(None) behaves like ''",
@@ -550,7 +550,8 @@ def timezone_cases(rng, n):
 # ------------------------------------------------------------------ client.py glue: tahoe.cfg [storage] keys → parsers → StorageServer
 TRUE_WORDS = ["1", "yes", "true", "on", "True", "YES", "On"]
 FALSE_WORDS = ["0", "no", "false", "off", "False", "NO", "Off"]
-BAD_BOOL = ["maybe", "2", "", "t", "enabled", "yes please"]
+BAD_BOOL = ["maybe", "2", "", "t", "enabled", "yes please", "yeſ", "١", "tru e", "00", "y", "of"]
+PAD_BOOL = [" yes ", "\tTRUE", "oN\u00a0", " 0", "fAlSe ", "OFF\t"]
 GLUE_KEYS = [("ro", "readonly", "B"), ("rs", "reserved_space", "V"), ("dd", "debug_discard", "B"), ("en", "expire.enabled", "B"),
              ("mode", "expire.mode", "M"), ("old", "expire.override_lease_duration", "V"), ("cut", "expire.cutoff_date", "V"),
              ("imm", "expire.immutable", "B"), ("mut", "expire.mutable", "B")]
@@ -567,6 +568,16 @@ def mode_class(v):
     return "age" if v == "age" else "cutoff" if v == "cutoff-date" else "other"
 
 
+def lit_sym(ch):
+    """abstraction for values compared with ASCII literals (booleans, expire.mode): only ASCII characters and whitespace keep
+    their identity; every other character can equal no literal character and becomes `other`"""
+    if ch.isspace():
+        return "w"
+    if ord(ch) < 128:
+        return "d%d" % int(ch) if ch.isdigit() else "a%d" % ord(ch)
+    return "o"
+
+
 def glue_value_ok(v):
     """values the glue model covers: one physical line, no interpolation syntax"""
     return not any(c in v for c in "\n\r%") and not any(c in "\x0b\x0c\x1c\x1d\x1e\x85\u2028\u2029" for c in v)
@@ -579,7 +590,9 @@ def gen_glue_cfg(rng):
         if kind == "B":
             if r < 0.55:
                 continue
-            cfg[short] = rng.choice(TRUE_WORDS + FALSE_WORDS) if r < 0.93 else rng.choice(BAD_BOOL)
+            cfg[short] = rng.choice(TRUE_WORDS + FALSE_WORDS + PAD_BOOL) if r < 0.9 else rng.choice(BAD_BOOL)
+            if rng.random() < 0.15:
+                cfg[short] = rand_case(rng, cfg[short])
         elif kind == "M":
             if r < 0.3:
                 continue
@@ -617,10 +630,8 @@ def glue_line(cfg):
     for short, key, kind in GLUE_KEYS:
         if short not in cfg:
             toks.append(short + "=~")
-        elif kind == "B":
-            toks.append(short + "=" + bool_class(cfg[short]))
-        elif kind == "M":
-            toks.append(short + "=" + mode_class(cfg[short]))
+        elif kind in "BM":     # the model classifies the text itself (classifyBool / classifyMode)
+            toks.append(short + "=" + (",".join(lit_sym(c) for c in cfg[short]) or "-"))
         else:
             toks.append(short + "=" + (",".join(sym_of(c) for c in cfg[short]) or "-"))
     return "glue " + " ".join(toks)
@@ -755,7 +766,9 @@ GLUE_CORPUS = [
     {"mode": "cutoff-date", "cut": v, "en": "yes"} for v in ("1970-01-01", "1969-12-31", "1970-01-02", "0001-01-01", "9999-12-31", "0000-01-01")
 ] + [
     # every boolean spelling on every boolean key
-    {k: w, "mode": "age"} for k in ("ro", "dd", "en", "imm", "mut") for w in TRUE_WORDS + FALSE_WORDS + BAD_BOOL
+    {k: w, "mode": "age"} for k in ("ro", "dd", "en", "imm", "mut") for w in TRUE_WORDS + FALSE_WORDS + PAD_BOOL + BAD_BOOL
+] + [
+    {"mode": m, "cut": "2009-01-16"} for m in ("age", " age ", "cutoff-date", "cutoff-date\t", "Age", "AGE", "cutoff_date", "cutoff-Date", "age1", "cutoff-date x")
 ]
 
 
